@@ -1,37 +1,47 @@
 /-
-M2 — the primitive codecs of /repo/kmip/core/primitives.py as they are, quirks included.
+M2 — the primitive codecs of /repo/kmip/core/primitives.py as they are (after the fix commits 0d11984, bfd0b64,
+a1ba6ef, 92c759e).
 
-Transcribed from (line numbers of kmip/core/primitives.py):
-  Base.write_tag / write_type / write_length            l.109-133  (`pack('!I', tag)[1:]`, length overflow check)
-  Base.read_tag / read_type / read_length               l.47-99    (tag and type must equal the expected ones)
-  Integer      validate l.239-256, write l.231-237, read l.206-229 (`!i`, 4 value bytes + 4 pad bytes, pad must be 0)
-  LongInteger  validate l.371-390, write l.357-369, read l.331-355 (`!q`)
-  BigInteger   write l.479-513 (bit-string algorithm: width 64*(len(bin|v|)//64+1) bits, two's complement by
-               invert-and-increment), read l.429-477 (length % 8, zero length is an IndexError)
-               — modelled arithmetically, see `pyBigLen`
-  Enumeration  validate l.633-659 (MAX = 4294967296, one too many), write l.618-631 (`!I`), read l.583-616
-  Boolean      write l.754-784 (`!Q`), read l.710-752 (the declared length is NOT checked; 8 bytes are read)
-  TextString   __init__ l.821-839 (length = number of characters), write_value l.869-876 (`pack('!c', char.encode())`:
-               a non-ASCII character encodes to 2+ bytes and `pack` raises), read_value l.841-862 (`c.decode()`
-               of a single byte >= 0x80 raises)
-  ByteString   l.911-975
-  DateTime     = LongInteger with type 9 (l.1008-1038)
-  Interval     validate l.1114-1132 (MAX = 4294967296, one too many), write l.1099-1112, read l.1064-1097
+Transcribed from kmip/core/primitives.py:
+  Base.write_tag / write_type / write_length   (`pack('!I', tag)[1:]`, length overflow check)
+  Base.read_tag / read_type / read_length      (tag and type must equal the expected ones)
+  Integer      validate, write, read (`!i`, 4 value bytes + 4 pad bytes, pad must be 0)
+  LongInteger  validate, write, read (`!q`)
+  BigInteger   write (bit-string algorithm: width = the smallest multiple of 64 bits that holds the value in two's
+               complement, decided by abs(v) for v >= 0 and abs(v) - 1 for v < 0; two's complement by
+               invert-and-increment), read (length % 8, zero length is an IndexError) — modelled arithmetically
+  Enumeration  validate (MAX = 4294967295), write (`!I`), read
+  Boolean      write (`!Q`), read (the declared length is NOT checked; 8 bytes are read)
+  TextString   __init__ (length = number of bytes of `value.encode('utf-8')`), write_value (those bytes + zero
+               padding), read_value (`length` bytes, `data.decode('utf-8')`, padding_length reset to 0 when 8)
+  ByteString
+  DateTime     = LongInteger with type 9
+  Interval     validate (MAX = 4294967295), write, read
 
-Encoders return `Except` so that "constructible (validate passes) but write raises" is expressible.
+TEXT.  A TextString value (a Python `str`) is represented here by its UTF-8 encoding, a byte string satisfying
+`validUtf8` (RFC 3629 / Unicode table 3-7: shortest form, no surrogates, at most U+10FFFF).  ASSUMED, not proved:
+CPython's `str.encode('utf-8')` and `bytes.decode('utf-8')` (strict) are mutually inverse bijections between
+the strs `encode` accepts (those without lone surrogates) and the byte strings satisfying `validUtf8`, and
+`decode` raises on every other byte string.  Under this assumption `constructible (.textString s) = validUtf8 s`
+is "the constructor accepts the str" (it calls `encode` to compute the length) and equality of byte strings is
+equality of strs.  The correspondence exercises the assumption on 1-, 2-, 3- and 4-byte sequences, boundary
+code points and mutated encodings on every run.
+
+Encoders return `Except` so that "constructible (validate passes) but write raises" stays expressible (today:
+only values whose length does not fit the 32-bit length field).
 -/
 import KmipModel.Bytes
 namespace Kmip.Prim
 open Kmip.TTLV
 
-/-- a value held by one of the primitive classes (Python ints are unbounded, text is a list of code points) -/
+/-- a value held by one of the primitive classes (Python ints are unbounded, text is its UTF-8 encoding) -/
 inductive PyVal where
   | integer (v : Int)
   | longInteger (v : Int)
   | bigInteger (v : Int)
   | enumeration (v : Int)
   | boolean (b : Bool)
-  | textString (cps : List Nat)
+  | textString (utf8 : Bytes)
   | byteString (s : Bytes)
   | dateTime (v : Int)
   | interval (v : Int)
@@ -39,7 +49,7 @@ inductive PyVal where
 
 inductive EncErr where
   | packRange        -- struct.error: number out of range for the format
-  | nonAscii         -- struct.error: char format requires a bytes object of length 1
+  | notUtf8          -- not a value a TextString can hold (see TEXT above); never raised by /repo
   | lengthOverflow   -- WriteOverflowError from write_length
   deriving DecidableEq, Repr
 
@@ -59,24 +69,49 @@ def PyVal.typeCode : PyVal → Nat
   | .dateTime _ => 9
   | .interval _ => 10
 
+/-- well-formed UTF-8 (Unicode table 3-7) -/
+def validUtf8 : Bytes → Bool
+  | [] => true
+  | b0 :: rest =>
+    if b0 < 0x80 then validUtf8 rest
+    else if 0xC2 ≤ b0 ∧ b0 ≤ 0xDF then
+      (match rest with
+       | b1 :: r => (0x80 ≤ b1 && b1 ≤ 0xBF) && validUtf8 r
+       | _ => false)
+    else if 0xE0 ≤ b0 ∧ b0 ≤ 0xEF then
+      (match rest with
+       | b1 :: b2 :: r =>
+         ((if b0 = 0xE0 then 0xA0 ≤ b1 && b1 ≤ 0xBF
+           else if b0 = 0xED then 0x80 ≤ b1 && b1 ≤ 0x9F
+           else 0x80 ≤ b1 && b1 ≤ 0xBF) && (0x80 ≤ b2 && b2 ≤ 0xBF)) && validUtf8 r
+       | _ => false)
+    else if 0xF0 ≤ b0 ∧ b0 ≤ 0xF4 then
+      (match rest with
+       | b1 :: b2 :: b3 :: r =>
+         ((if b0 = 0xF0 then 0x90 ≤ b1 && b1 ≤ 0xBF
+           else if b0 = 0xF4 then 0x80 ≤ b1 && b1 ≤ 0x8F
+           else 0x80 ≤ b1 && b1 ≤ 0xBF) && (0x80 ≤ b2 && b2 ≤ 0xBF) && (0x80 ≤ b3 && b3 ≤ 0xBF)) && validUtf8 r
+       | _ => false)
+    else false
+
 /-- `validate()` passes, i.e. the constructor accepts the value -/
 def PyVal.constructible : PyVal → Prop
   | .integer v => -2147483648 ≤ v ∧ v ≤ 2147483647
   | .longInteger v => -9223372036854775808 ≤ v ∧ v ≤ 9223372036854775807
   | .bigInteger _ => True
-  | .enumeration v => 0 ≤ v ∧ v ≤ 4294967296
+  | .enumeration v => 0 ≤ v ∧ v ≤ 4294967295
   | .boolean _ => True
-  | .textString _ => True
+  | .textString s => validUtf8 s = true
   | .byteString _ => True
   | .dateTime v => -9223372036854775808 ≤ v ∧ v ≤ 9223372036854775807
-  | .interval v => 0 ≤ v ∧ v ≤ 4294967296
+  | .interval v => 0 ≤ v ∧ v ≤ 4294967295
 
 instance (v : PyVal) : Decidable v.constructible := by
   cases v <;> unfold PyVal.constructible <;> exact inferInstance
 
-/-- number of bytes BigInteger.write emits: `len("{0:b}".format(abs v))` rounded up to the NEXT multiple of 64 bits
-(a full extra group when the bit length already is a multiple of 64) -/
-def pyBigLen (v : Int) : Nat := 8 * (bitlen v.natAbs / 64 + 1)
+/-- number of bytes BigInteger.write emits: `len(sizing)` rounded up to the next multiple of 64 bits, where
+`sizing` is the binary text of `abs v` (v >= 0) or of `abs v - 1` (v < 0) -/
+def pyBigLen (v : Int) : Nat := 8 * (bitlen (if 0 ≤ v then v.natAbs else v.natAbs - 1) / 64 + 1)
 
 /-- `struct.pack` of a signed number on `n` bytes (`!i`, `!q`): range checked -/
 def packSigned (n : Nat) (v : Int) : Except EncErr Bytes :=
@@ -86,10 +121,9 @@ def packSigned (n : Nat) (v : Int) : Except EncErr Bytes :=
 def packUnsigned (n : Nat) (v : Int) : Except EncErr Bytes :=
   if 0 ≤ v ∧ v < ((256 ^ n : Nat) : Int) then .ok (be n v.toNat) else .error .packRange
 
-/-- TextString.write_value: one byte per character, ASCII only -/
-def packText : List Nat → Except EncErr Bytes
-  | [] => .ok []
-  | c :: cs => if c < 128 then (packText cs).map (UInt8.ofNat c :: ·) else .error .nonAscii
+/-- TextString.write_value: the UTF-8 bytes of the str (the error branch is never reached from /repo: such a
+value cannot be held by a TextString) -/
+def packText (s : Bytes) : Except EncErr Bytes := if validUtf8 s then .ok s else .error .notUtf8
 
 /-- value bytes (declared length many) and the pad bytes written after them -/
 def pyValue : PyVal → Except EncErr (Bytes × Bytes)
@@ -100,7 +134,7 @@ def pyValue : PyVal → Except EncErr (Bytes × Bytes)
       .ok (if 0 ≤ v then be n v.natAbs else be n (256 ^ n - v.natAbs), [])
   | .enumeration v => (packUnsigned 4 v).map (·, zeros 4)
   | .boolean b => .ok (be 8 (if b then 1 else 0), [])
-  | .textString cps => (packText cps).map (fun bs => (bs, zeros (padLen cps.length)))
+  | .textString s => (packText s).map (fun bs => (bs, zeros (padLen s.length)))
   | .byteString s => .ok (s, zeros (padLen s.length))
   | .dateTime v => (packSigned 8 v).map (·, [])
   | .interval v => (packUnsigned 4 v).map (·, zeros 4)
@@ -112,7 +146,7 @@ def pyLength : PyVal → Nat
   | .bigInteger v => pyBigLen v
   | .enumeration _ => 4
   | .boolean _ => 8
-  | .textString cps => cps.length
+  | .textString s => s.length
   | .byteString s => s.length
   | .dateTime _ => 8
   | .interval _ => 4
@@ -125,14 +159,22 @@ def pyEncode (tag : Nat) (v : PyVal) : Except EncErr Bytes :=
     | .error e => .error e
   else .error .lengthOverflow
 
-/-- `write` of an object whose fields were set by `read` instead of the constructor.  The only class for which
-this differs: TextString.read_value (l.851-853) computes `padding_length = 8 - length % 8` and skips the pad
-bytes when that is 8, but — unlike ByteString.read_value (l.943-946) — never resets the attribute to 0, so a
-decoded TextString whose length is a multiple of 8 writes eight zero bytes after its value. -/
+/-- `padding_length` as TextString.read_value / ByteString.read_value leave it behind:
+`8 - length % 8`, reset to 0 when that is 8 -/
+def decodedPad (len : Nat) : Nat := if 8 - len % 8 = 8 then 0 else 8 - len % 8
+
+/-- `write` of an object whose fields were set by `read` instead of the constructor: the same as `pyEncode`
+except that Text / Byte Strings use the padding length computed by `read_value` (`decodedPad`) -/
 def pyReencode (tag : Nat) (v : PyVal) : Except EncErr Bytes :=
-  match v with
-  | .textString cps => if cps.length % 8 = 0 then (pyEncode tag v).map (· ++ zeros 8) else pyEncode tag v
-  | _ => pyEncode tag v
+  if pyLength v < 256 ^ 4 then
+    match v, pyValue v with
+    | .textString s, .ok (value, _) =>
+      .ok (be 3 tag ++ (be 1 v.typeCode ++ (be 4 (pyLength v) ++ (value ++ zeros (decodedPad s.length)))))
+    | .byteString s, .ok (value, _) =>
+      .ok (be 3 tag ++ (be 1 v.typeCode ++ (be 4 (pyLength v) ++ (value ++ zeros (decodedPad s.length)))))
+    | _, .ok (value, pad) => .ok (be 3 tag ++ (be 1 v.typeCode ++ (be 4 (pyLength v) ++ (value ++ pad))))
+    | _, .error e => .error e
+  else .error .lengthOverflow
 
 /-! ### decoders -/
 
@@ -206,7 +248,7 @@ def pyDecode (ty : Nat) (tag : Nat) (member : Nat → Bool) (bs : Bytes) : Excep
       match readPadded len r with
       | .error e => .error e
       | .ok (vb, r') =>
-        if vb.all (fun b => b.toNat < 128) then .ok (.textString (vb.map UInt8.toNat), r') else .error .value
+        if validUtf8 vb then .ok (.textString vb, r') else .error .value
     else if ty = 8 then
       (readPadded len r).map (fun (vb, r') => (.byteString vb, r'))
     else if ty = 9 then
